@@ -3,6 +3,7 @@ package exec
 import (
 	"fmt"
 	"go/types"
+	"strings"
 	"sync"
 
 	"golang.org/x/tools/go/ssa"
@@ -34,6 +35,10 @@ type thread struct {
 	vc vclock
 	// go statement that created it
 	site string
+	// background threads are not part of schedule exploration: they run only when no
+	// foreground thread can
+	background bool
+	label      string // name given by zzverif.Go (used to force schedules in native replays)
 }
 
 type outcome struct {
@@ -97,6 +102,23 @@ func (s *sched) pick(from *thread, fromCanContinue bool) *thread {
 			return idle
 		}
 		return nil
+	}
+	if s.explore {
+		// foreground threads first; background ones only when nothing else can run
+		var fg []*thread
+		for _, t := range en {
+			if !t.background {
+				fg = append(fg, t)
+			}
+		}
+		if len(fg) > 0 {
+			if fromCanContinue && from.background {
+				fromCanContinue = false
+			}
+			en = fg
+		} else {
+			return en[0]
+		}
 	}
 	if !s.explore || len(en) == 1 {
 		return en[0]
@@ -207,9 +229,13 @@ func (s *sched) waitIdle() {
 }
 
 func (in *interp) spawn(fr *frame, instr *ssa.Go, fn value, args []value) {
+	in.spawnNamed("", in.siteOf(fr, instr.Pos()), fn, args)
+}
+
+func (in *interp) spawnNamed(name, site string, fn value, args []value) {
 	s := in.sch
 	s.yield("go")
-	t := &thread{id: len(s.threads), resume: make(chan struct{}), site: in.siteOf(fr, instr.Pos())}
+	t := &thread{id: len(s.threads), resume: make(chan struct{}), site: site, label: name}
 	switch f := fn.(type) {
 	case *ssa.Function:
 		t.name = f.String()
@@ -421,8 +447,10 @@ type channel struct {
 }
 
 func (in *interp) makeChan(n int, site string) *channel {
-	if c, ok := in.chanCaps[site]; ok {
-		n = c
+	for sub, c := range in.chanCaps {
+		if strings.Contains(site, sub) {
+			n = c
+		}
 	}
 	return &channel{capacity: n, site: site}
 }
